@@ -113,6 +113,7 @@ class TransposeDiatonic(NoteTransformer):
             new_note.type = 's'
             new_note.val = new_val
             return new_note
+        return note.copy()
 
 
 class TransposeChromatic(NoteTransformer):
